@@ -1,0 +1,17 @@
+//go:build verif
+
+// Package verifyield marks the boundaries between critical sections at which a
+// deterministic simulation may park a goroutine and decide who runs next. With
+// the build tag off Point is an empty function; with it on and no scheduler
+// installed it returns immediately.
+package verifyield
+
+// Hook is installed by the simulation harness.
+var Hook func(site string)
+
+// Point is a scheduling point.
+func Point(site string) {
+	if h := Hook; h != nil {
+		h(site)
+	}
+}
